@@ -58,44 +58,54 @@ HARNESSES += [
 ]
 
 _REC = [_DF, _DB + 'interrogateComponent.cxx', _DB + 'interrogateDatabase.cxx']
-_RECU = dict(_STR)
+_LEN_DOMAIN = ('strings: symbolic contents over all byte values; lengths follow concrete patterns (all strings of length p for '
+               'p in 0..LMAX, lengths cycling upwards, lengths cycling downwards over the string fields of the record; the quick '
+               'tier runs the patterns all-empty / cycling up / cycling down, the thorough tier all LMAX+3 patterns)')
+_QUICK_PATS = 0b11001      # LMAX=2: patterns 0 (all empty), 3 (cycle up), 4 (cycle down)
 
 def _pool(cap):
-    # stream pools sized to the harness: symbolic execution time is roughly linear in each pool size
-    return ['-DVS_NOBJ=4', '-DVS_NBUF=2', '-DVS_CAP=%d' % cap]
+    # stream pools sized to the harness: symbolic execution time is roughly linear in each pool size; the token array
+    # must stay field-sensitive (one SSA symbol per token) or every stream position read becomes symbolic
+    return ['-DVS_NOBJ=4', '-DVS_NBUF=2', '-DVS_CAP=%d' % cap] + (['--max-field-sensitivity-array-size', str(cap)] if cap > 64 else [])
 
-def _b(cap, unwind=5, cap_s=600, **defs):
+def _b(cap, unwind=7, cap_s=600, **defs):
     us = dict(_STR)
     us['vs_same_output.0'] = cap + 2
     return dict(defs=defs, unwind=unwind, unwindset=us, cap=cap_s)
 
-def _rec(name, extra_tus, desc, shapes, vs_cap, quick, thorough=None, **kw):
+def _rec(name, extra_tus, desc, shapes, vs_cap, hid=None, shape=None, cap_q=600, cap_t=3000, **kw):
     kw.setdefault('cbmc_flags', _BYTEWISE + _pool(vs_cap))
-    return _h('c12_rec_' + name, 'c12_records.cxx', 'harness_c12_rec_' + name, _REC + [_DB + t for t in extra_tus], desc,
-              'every scalar field over all of int; every string of length 0..LMAX over all byte values; container shapes: ' + shapes,
+    dq = dict(LMAX=2, PAT_MASK=_QUICK_PATS)
+    dt = dict(LMAX=2)
+    if shape is not None:
+        dq['ONLY_SHAPE'] = shape
+        dt['ONLY_SHAPE'] = shape
+    return _h(hid or 'c12_rec_' + name, 'c12_records.cxx', 'harness_c12_rec_' + name, _REC + [_DB + t for t in extra_tus], desc,
+              'every scalar field over all of int (exceptions stated); ' + _LEN_DOMAIN + '; container shapes: ' + shapes,
               'field-wise equality with the record written, stream not failed, following integer intact, integers delimited, '
               're-serialising the read-back record gives the same token sequence',
-              quick, thorough, **kw)
+              _b(vs_cap, cap_s=cap_q, **dq), _b(vs_cap, cap_s=cap_t, **dt), **kw)
+
+_TYPE_SHAPES = [(0x000, 'no alt name, all vectors empty, not an array', 64),
+                (0x3ff, 'one alt name, one element in each of the eight vectors, array type', 112),
+                (0x2aa, 'one element in constructors, methods, casts, enum_values; array type', 96),
+                (0x155, 'one alt name, one element in elements, make_seqs, derivations, nested_types', 96)]
 
 HARNESSES += [
- _rec('component', [], 'InterrogateComponent::output/input (name + alt names)', '0, 1 or 2 alt names',
-      24, _b(24, LMAX=2)),
- _rec('manifest', ['interrogateManifest.cxx'], 'InterrogateManifest::output/input', '0 or 1 alt name',
-      32, _b(32, LMAX=2)),
- _rec('make_seq', ['interrogateMakeSeq.cxx'], 'InterrogateMakeSeq::output/input', '0 or 1 alt name',
-      32, _b(32, LMAX=2)),
- _rec('element', ['interrogateElement.cxx'], 'InterrogateElement::output/input in the current (3.3) format', '0 or 1 alt name',
-      48, _b(48, LMAX=2)),
+ _rec('component', [], 'InterrogateComponent::output/input (name + alt names)', '0, 1 or 2 alt names', 24),
+ _rec('manifest', ['interrogateManifest.cxx'], 'InterrogateManifest::output/input', '0 or 1 alt name', 32),
+ _rec('make_seq', ['interrogateMakeSeq.cxx'], 'InterrogateMakeSeq::output/input', '0 or 1 alt name', 32),
+ _rec('element', ['interrogateElement.cxx'], 'InterrogateElement::output/input in the current (3.3) format', '0 or 1 alt name', 48),
  _rec('function', ['interrogateFunction.cxx'], 'InterrogateFunction::output/input',
-      '(alt names, C wrappers, Python wrappers) in {(0,0,0), (1,1,1), (0,1,0), (1,0,1)}',
-      48, _b(48, LMAX=2)),
+      '(alt names, C wrappers, Python wrappers) in {(0,0,0), (1,1,1), (0,1,0), (1,0,1)}', 48),
  _rec('wrapper', ['interrogateFunctionWrapper.cxx'], 'InterrogateFunctionWrapper::output/input incl. the parameter vector',
-      '(alt names, parameters) in {(0,0), (1,1), (0,2)}',
-      64, _b(64, LMAX=2)),
- _rec('type', ['interrogateType.cxx'], 'InterrogateType::output/input incl. all eight vectors, derivations and enum values',
-      'alt names and each of the eight vectors hold 0 or 1 element in the patterns none / all / alternating (two phases); '
-      '_array_size symbolic iff the array flag is set (it is serialised only then), constructor default otherwise',
-      112, _b(112, LMAX=2)),
+      '(alt names, parameters) in {(0,0), (1,1), (0,2)}', 64),
+] + [
+ _rec('type', ['interrogateType.cxx'], 'InterrogateType::output/input incl. all eight vectors, derivations and enum values (shape 0x%03x)' % sh,
+      what + '; _flags is one of two fixed bit patterns (array bit clear / set: it decides whether _array_size is in the file, '
+      'and a symbolic token count is unaffordable), _array_size symbolic for array types and the constructor default otherwise',
+      cap, hid='c12_rec_type_%03x' % sh, shape=sh)
+ for sh, what, cap in _TYPE_SHAPES
 ]
 
 PROPERTY_INFO = {'C12': {'level': 'model_checking',
